@@ -155,8 +155,165 @@ pub fn run(cfg: &RunCfg, out: &Out) {
                 continue;
             }
         }
-        scenario(cfg.scenario_seed(k), k, out);
+        if k % 4 == 3 {
+            scenario_same_height(cfg.scenario_seed(k), k, out);
+        } else {
+            scenario(cfg.scenario_seed(k), k, out);
+        }
     }
+}
+
+/// what get_transaction / fetch_transaction say about a transaction: (status, block hash)
+fn tx_answers(w: &World, tx: &Byte32) -> Vec<(&'static str, Value)> {
+    let h: H256 = tx.unpack();
+    let mut v = vec![];
+    if let Ok(r) = w.c().rpc_tx().get_transaction(h.clone()) {
+        v.push(("get_transaction", serde_json::to_value(&r).unwrap()["tx_status"].clone()));
+    }
+    if let Ok(FetchStatus::Fetched { data }) = w.c().rpc_tx().fetch_transaction(h) {
+        v.push(("fetch_transaction", serde_json::to_value(&data).unwrap()["tx_status"].clone()));
+    }
+    v
+}
+
+/// R4 across a fork switch: a transaction of branch A was fetched (committed in block A_n); the network switches to a
+/// branch B that replaces height n, and the client stores B_n as well (fetch_header of B_n, fetch_transaction of a
+/// transaction in B_n, or filter sync indexing B_n for a registered script). Whatever get_transaction /
+/// fetch_transaction then answer for the first transaction: a `committed` answer must name a stored header whose block
+/// really contains it.
+fn scenario_same_height(seed: u64, k: u64, out: &Out) {
+    let mut rng = Rng::new(seed);
+    let (now, base_ts) = time_base();
+    let mut params = gen_params(&mut rng, seed, base_ts);
+    params.tx_density = 100;
+    let len = rng.range(15, 50);
+    let mut ccfg = gen_ccfg(&mut rng);
+    ccfg.last_n = *rng.pick(&[5u64, 10, 100]);
+    ccfg.cp_interval = 2000;
+    let main = Chain::generate(params.clone(), len);
+    let mut w = World::new(main, ccfg.clone(), seed, now);
+    let mut net = HonestNet::new(0);
+    w.add_peer(0, true);
+    let how = *rng.pick(&["fetch_header", "fetch_transaction", "script-indexing"]);
+    let desc = json!({"seed": seed, "scenario": k, "len": len, "mode": "same-height-after-fork", "second_block_stored_by": how, "last_n": ccfg.last_n});
+    let mut mon = Mon { out, reported_missing: HashSet::new(), bad_peer: None, bad_mode: 9, rng: rng.fork(3), invalid_answers: 0 };
+    w.connect_all();
+    if w.run_until(&mut mon, 40, |w| w.tip_hash() == w.chains[0].tip_hash()).is_none() {
+        out.count("setup_not_converged", 1);
+        w.close();
+        return;
+    }
+    // a transaction in one of the two highest blocks of branch A
+    // (a transaction of the tip block itself cannot be proven: the chain root of the last header covers its ancestors only)
+    let tip = w.chains[0].tip();
+    let depth = rng.range(1, 2);
+    let n = tip - depth;
+    let (tx_a, block_a) = {
+        let b = &w.chains[0].blocks[n as usize];
+        let txs = b.transactions();
+        (txs[rng.pick_idx(txs.len())].hash(), b.hash())
+    };
+    let h: H256 = tx_a.unpack();
+    let mut fetched = false;
+    for _ in 0..R_FETCH {
+        if let Ok(FetchStatus::Fetched { .. }) = w.c().rpc_tx().fetch_transaction(h.clone()) {
+            fetched = true;
+            break;
+        }
+        w.round(&mut mon);
+        if w.dead {
+            break;
+        }
+    }
+    if !fetched || w.dead {
+        out.count("same_height_setup_not_fetched", 1);
+        w.close();
+        return;
+    }
+    let judge = |w: &World, stage: &str, violated: &mut bool| {
+        for (rpc, st) in tx_answers(w, &tx_a) {
+            out.eval(1);
+            if st["status"].as_str() != Some("committed") {
+                out.cell(&format!("same-height|{}|{}|{}|not-committed", how, stage, rpc));
+                continue;
+            }
+            let bh = st["block_hash"].as_str().map(|x| x.trim_start_matches("0x").to_string()).unwrap_or_default();
+            let truthful = bh == hex(block_a.as_slice());
+            let stored = serde_json::from_value::<H256>(json!(format!("0x{}", bh))).ok().and_then(|hh| w.c().rpc_chain().get_header(hh).ok().flatten()).is_some();
+            out.cell(&format!("same-height|{}|{}|{}|committed|truthful={}|stored={}", how, stage, rpc, truthful, stored));
+            if (!truthful || !stored) && !*violated {
+                *violated = true;
+                out.violation("C16.R4", &format!("C16|committed-with-a-block-that-does-not-contain-the-transaction|{}|{}", how, rpc),
+                    json!({"scenario": desc, "stage": stage, "rpc": rpc, "answer": st, "containing_block": hex(block_a.as_slice()), "height": n, "header_stored": stored,
+                        "trace": w.trace_vec().into_iter().rev().take(12).collect::<Vec<_>>()}), k);
+            }
+        }
+    };
+    let mut violated = false;
+    judge(&w, "before-fork", &mut violated);
+    // the network switches to branch B forking below n (a fork the client can follow: within its remembered headers)
+    let at = n - 1 - rng.range(0, 1);
+    if how == "script-indexing" {
+        // scripts are registered from the fork point on, so that filter sync downloads and indexes the blocks of branch B
+        let regs: super::super::refidx::Registered = (0..w.chains[0].params.n_locks).map(|i| (super::super::chain::lock_script(i), super::super::refidx::ST::Lock, at)).collect();
+        set_scripts(&w, &regs, None);
+    }
+    net.fork(&mut w, at, tip - at + 2, rng.next_u64() | 1);
+    net.grow(&mut w, 1);
+    let main = net.main;
+    for _ in 0..60 {
+        if w.dead || w.tip_hash() == w.chains[main].tip_hash() {
+            break;
+        }
+        w.round(&mut mon);
+    }
+    if how == "script-indexing" {
+        // let filter sync download and index the blocks of branch B (whether it gets all the way is C04's matter)
+        for r in 0..40 {
+            if w.dead || w.converged_on(main) {
+                break;
+            }
+            if r % 15 == 14 {
+                net.grow(&mut w, 1);
+            }
+            w.round(&mut mon);
+        }
+    }
+    let main = net.main;
+    if w.dead || Unpack::<u64>::unpack(&w.c().storage.get_tip_header().raw().number()) < n || w.chains[main].num_of(&w.tip_hash()).is_none() {
+        out.count("same_height_fork_not_followed", 1);
+        w.close();
+        return;
+    }
+    judge(&w, "after-fork", &mut violated);
+    // the block of branch B at the same height gets stored
+    let b_n = w.chains[main].blocks[n as usize].clone();
+    let second: Option<H256> = match how {
+        "fetch_header" => Some(b_n.hash().unpack()),
+        "fetch_transaction" => Some(b_n.transactions()[rng.pick_idx(b_n.transactions().len())].hash().unpack()),
+        _ => None,
+    };
+    for r in 0..R_FETCH {
+        let done = match (how, &second) {
+            ("fetch_header", Some(hh)) => matches!(w.c().rpc_chain().fetch_header(hh.clone()), Ok(FetchStatus::Fetched { .. })),
+            ("fetch_transaction", Some(hh)) => matches!(w.c().rpc_tx().fetch_transaction(hh.clone()), Ok(FetchStatus::Fetched { .. })),
+            _ => r >= 3,
+        };
+        if done || w.dead {
+            break;
+        }
+        if r % 15 == 14 {
+            net.grow(&mut w, 1);
+        }
+        w.round(&mut mon);
+    }
+    if !w.dead {
+        judge(&w, "after-second-block-at-the-height", &mut violated);
+    }
+    out.count("scenarios", 1);
+    out.count("same_height_scenarios", 1);
+    out.sample("scenario|same-height-after-fork", 1, || desc.clone());
+    w.close();
 }
 
 fn poll(w: &World, t: &mut Track, round: u64) -> Option<(St, Option<Value>)> {
